@@ -1,6 +1,8 @@
 import Pyunicorn.Lemmas.Random
 import Pyunicorn.Lemmas.RandomB
 import Pyunicorn.Lemmas.RandomC
+import Pyunicorn.Lemmas.RandomD
+import Pyunicorn.Lemmas.RandomE
 /-!
 # C17 — random models and rewirings keep their documented invariants
 
@@ -11,6 +13,7 @@ theorem is for *all* streams.  The models are tied to the compiled kernels and
 to the public methods by the exact correspondence in `harness/c17.py`.
 -/
 namespace Pyunicorn.Random
+open Pyunicorn.Generated.ArithC17
 
 /-! ## geographical rewiring (models I, II, III)
 
@@ -191,6 +194,18 @@ theorem geoStep_degree_pairs (c : GeoCfg) (st st' : GeoSt) (d : Nat × Nat)
     simp only [geoAccept, Bool.and_eq_true, condDeg, hm, beq_iff_eq] at acc
     obtain ⟨⟨-, h1, h2⟩, -⟩ := acc
     simp [hpq, h1, h2]
+
+/-- **link lengths over a whole run (all modes, every stream of draws)**: the links before
+and after can be matched one to one (`σ` is a bijection of the positions of the edge array with
+inverse `τ`) such that matched links differ in length by at most `r · eps`, where `r = i' − i`
+is the number of rewirings made — the link-length distribution is preserved "approximately"
+with exactly this tolerance (each single rewiring: `< eps`, `geoStep_lengths`). -/
+theorem geoRun_link_lengths (c : GeoCfg) (iterations : Nat) (draws : List (Nat × Nat))
+    (st st' : GeoSt) (h : geoRun c iterations draws st = some st') :
+    ∃ σ τ, BijOn st.edges.length σ τ ∧ st'.edges.length = st.edges.length ∧
+      ∀ p e, st.edges[p]? = some e → ∃ e', st'.edges[σ p]? = some e' ∧
+        closeBy (((st'.i : Int) - (st.i : Int)) * c.eps) (len c.D e) (len c.D e') :=
+  geoRun_match c iterations draws st st' h
 
 /-! ## cross links: `overwriteAdjacency`
 
@@ -487,6 +502,325 @@ theorem ba_new_link (N m : Nat) (st st' : BASt) (idx : Nat) (inv : BAInv N m st)
     rcases hc with ⟨_, rfl⟩ | ⟨_, rfl⟩ <;> simp only [baWrap, baLink, Adj.set] <;> grind
 
 
+/-- the draws are values `int(uniform(0, n_targets))` can take: each is below the
+`n_targets` of the state it is drawn in -/
+def baDrawsOK (N m : Nat) : List Nat → BASt → Bool
+  | [], _ => true
+  | d :: ds, st => decide (d < st.nTargets) &&
+      match baStep N m st d with
+      | some st1 => baDrawsOK N m ds st1
+      | none => true
+
+/-- **no IndexError in the growth loop** (`N > m`): whatever the RNG returns, `targets[idx]`
+and `targets[n_targets + it] = i` stay inside `targets` (length `2m(N−m)` — the generated
+size expression — while `n_targets = 2m(j−m)` and `j < N`). -/
+theorem ba_defined (N m : Nat) (hN : m + 1 ≤ N) (draws : List Nat)
+    (ok : baDrawsOK N m draws (baInit N m) = true) :
+    ∃ st', baRun N m draws (baInit N m) = some st' := by
+  have gen : ∀ (draws : List Nat) (st : BASt), BAInv N m st → baDrawsOK N m draws st = true →
+      ∃ st', baRun N m draws st = some st' := by
+    intro draws
+    induction draws with
+    | nil => intro st _ _; exact ⟨st, rfl⟩
+    | cons d ds ih =>
+      intro st inv ok
+      simp only [baDrawsOK, Bool.and_eq_true, decide_eq_true_eq] at ok
+      obtain ⟨st1, h1⟩ := baStep_defined N m st d inv ok.1
+      have ok2 := ok.2
+      rw [h1] at ok2
+      simp only [baRun, h1, Option.bind_some]
+      exact ih st1 (baStep_inv N m st st1 d h1 inv) ok2
+  exact gen draws _ (baInit_inv N m hN) ok
+
+/-- the sizes the code allocates and the bookkeeping of `n_targets`, in every reachable state:
+`len(targets) = 2m(N−m)`, `n_targets = 2m(j−m) ≤ len(targets)`. -/
+theorem ba_targets_bookkeeping (N m : Nat) (hN : m + 1 ≤ N) (draws : List Nat) (st' : BASt)
+    (h : baRun N m draws (baInit N m) = some st') :
+    st'.targets.length = 2 * m * (N - m) ∧ st'.nTargets = 2 * m * (st'.j - m) ∧
+      st'.nTargets ≤ st'.targets.length := by
+  have inv := ba_invariants N m hN draws st' h
+  refine ⟨inv.len, inv.nT, ?_⟩
+  rw [inv.len, inv.nT]
+  exact two_mul_mono m _ _ (by have := inv.jN; omega)
+
+/-! ## the public methods: the kernels' preconditions are established by the wrappers
+
+`SpatialNetwork.randomly_rewire_geomodel_*` builds `edges` from `graph.get_edgelist()`, `E`
+from `n_links`, `degree` from `degree()`; `RandomlyRewireCrossLinks` builds `cross_A`,
+`cross_links`; the theorems below need nothing but "the input network is a simple undirected
+graph on `n` nodes" (and, for cross links, "the node lists are duplicate-free and disjoint"). -/
+
+/-- **`randomly_rewire_geomodel_I/II/III`, whole method, every stream of draws**: the new
+adjacency is a simple undirected graph with the degree of every node and the number of links
+unchanged; the kernel's `edges` is still its edge list; at most `iterations` rewirings. -/
+theorem geoMethod_invariants (mode : GeoMode) (D : Nat → Nat → Int) (eps : Int) (n : Nat)
+    (A : Adj) (iterations : Nat) (draws : List (Nat × Nat)) (st' : GeoSt)
+    (sym : ∀ i j, A i j = A j i) (lf : ∀ i, A i i = false)
+    (supp : ∀ i j, A i j = true → i < n ∧ j < n)
+    (h : geoMethod mode D eps n A iterations draws = some st') :
+    (∀ a b, st'.A a b = st'.A b a) ∧ (∀ a, st'.A a a = false) ∧
+    (∀ a b, st'.A a b = true → a < n ∧ b < n) ∧
+    (∀ v, deg st'.A n v = deg A n v) ∧ total st'.A n n = total A n n ∧
+    GeoInv n st'.A st'.edges ∧ st'.i ≤ iterations := by
+  have inv0 := geoInv_edgeList n A sym lf supp
+  unfold geoMethod at h
+  obtain ⟨i1, i2, -, i4⟩ := geoRun_invariants n _ iterations draws _ st' h inv0
+  refine ⟨i1.sym, i1.loopfree, ?_, i2, geoRun_total n _ iterations draws _ st' h inv0, i1,
+    i4 (Nat.zero_le _)⟩
+  intro a b hab
+  obtain ⟨p, hp, hs⟩ := i1.complete a b hab
+  have := i1.inb p hp
+  simp only [sameLink] at hs
+  omega
+
+/-- **the method cannot raise IndexError**: `E = n_links` is half the number of ones, which is
+the number of rows of `edges`, so every `floor(u·E)` with `0 ≤ u < 1` is a valid row. -/
+theorem geoMethod_defined (mode : GeoMode) (D : Nat → Nat → Int) (eps : Int) (n : Nat)
+    (A : Adj) (iterations : Nat) (draws : List (Nat × Nat)) (E : Nat)
+    (sym : ∀ i j, A i j = A j i) (lf : ∀ i, A i i = false)
+    (hE : total A n n = 2 * (E : Int)) (hd : ∀ d ∈ draws, d.1 < E ∧ d.2 < E) :
+    ∃ st', geoMethod mode D eps n A iterations draws = some st' := by
+  have hl : (edgeList n A).length = E := by
+    have := edgeList_length n A sym lf; omega
+  unfold geoMethod
+  exact geoRun_defined _ iterations draws _ (by simpa [hl] using hd)
+
+/-- **model III inside the method uses the true degrees throughout**: the `degree` array is
+`degree()` of the input, and every state of the run has exactly these degrees, so
+`geoStep_degree_pairs` speaks about the actual degree pairs of the current network. -/
+theorem geoMethod_degree_array (mode : GeoMode) (D : Nat → Nat → Int) (eps : Int) (n : Nat)
+    (A : Adj) (iterations : Nat) (draws : List (Nat × Nat)) (st' : GeoSt)
+    (sym : ∀ i j, A i j = A j i) (lf : ∀ i, A i i = false)
+    (supp : ∀ i j, A i j = true → i < n ∧ j < n)
+    (h : geoMethod mode D eps n A iterations draws = some st') (v : Nat) :
+    ({ mode := mode, D := D, eps := eps, degree := fun v => deg A n v } : GeoCfg).degree v
+      = deg st'.A n v :=
+  ((geoMethod_invariants mode D eps n A iterations draws st' sym lf supp h).2.2.2.1 v).symm
+
+/-- **link lengths, whole method**: the links of the input network and of the rewired network
+(each listed once) can be matched one to one with length differences of at most
+(number of rewirings)·`inaccuracy` ≤ `iterations`·`inaccuracy`. -/
+theorem geoMethod_link_lengths (mode : GeoMode) (D : Nat → Nat → Int) (eps : Int) (n : Nat)
+    (A : Adj) (iterations : Nat) (draws : List (Nat × Nat)) (st' : GeoSt)
+    (h : geoMethod mode D eps n A iterations draws = some st') :
+    ∃ σ τ, BijOn (edgeList n A).length σ τ ∧ st'.edges.length = (edgeList n A).length ∧
+      ∀ p e, (edgeList n A)[p]? = some e → ∃ e', st'.edges[σ p]? = some e' ∧
+        closeBy ((st'.i : Int) * eps) (len D e) (len D e') := by
+  unfold geoMethod at h
+  obtain ⟨σ, τ, b, l, m⟩ := geoRun_link_lengths _ iterations draws _ st' h
+  refine ⟨σ, τ, b, l, fun p e he => ?_⟩
+  obtain ⟨e', h1, h2⟩ := m p e he
+  exact ⟨e', h1, by simpa using h2⟩
+
+/-- **model III over a whole run**: the degree pair (with respect to the `degree` array the
+kernel was given) of the link stored at *every position* of the edge array is the same after
+the run as before — the list of degree pairs over all links is literally unchanged. -/
+theorem geoRun_degree_pairs (c : GeoCfg) (hm : c.mode = .III) (iterations : Nat)
+    (draws : List (Nat × Nat)) (st st' : GeoSt) (h : geoRun c iterations draws st = some st')
+    (p : Nat) (e : Nat × Nat) (he : st.edges[p]? = some e) :
+    ∃ e', st'.edges[p]? = some e' ∧
+      (c.degree e'.1, c.degree e'.2) = (c.degree e.1, c.degree e.2) :=
+  geoRun_pairs c hm iterations draws st st' h p e he
+
+/-- **`randomly_rewire_geomodel_III`, whole method**: the link at every position of the edge
+list has, in the rewired network, end points with the same pair of (actual, current) degrees as
+the link at that position of the input network: degree–degree correlations are conserved
+exactly. -/
+theorem geoMethod_degree_pairs (D : Nat → Nat → Int) (eps : Int) (n : Nat)
+    (A : Adj) (iterations : Nat) (draws : List (Nat × Nat)) (st' : GeoSt)
+    (sym : ∀ i j, A i j = A j i) (lf : ∀ i, A i i = false)
+    (supp : ∀ i j, A i j = true → i < n ∧ j < n)
+    (h : geoMethod .III D eps n A iterations draws = some st')
+    (p : Nat) (e : Nat × Nat) (he : (edgeList n A)[p]? = some e) :
+    ∃ e', st'.edges[p]? = some e' ∧
+      (deg st'.A n e'.1, deg st'.A n e'.2) = (deg A n e.1, deg A n e.2) := by
+  have hd := (geoMethod_invariants .III D eps n A iterations draws st' sym lf supp h).2.2.2.1
+  unfold geoMethod at h
+  obtain ⟨e', h1, h2⟩ := geoRun_degree_pairs _ rfl iterations draws _ st' h p e he
+  exact ⟨e', h1, by rw [hd, hd]; exact h2⟩
+
+/-- **`RandomlyRewireCrossLinks`, whole method, every stream of draws, every number of swaps**:
+for a simple undirected network on `N` nodes and duplicate-free disjoint node lists, the
+returned adjacency is simple, equals the input outside the two cross blocks (all links inside
+a group and to outside nodes), every node keeps its degree, and the new cross adjacency has
+the old row and column sums (cross degrees of both groups) and the old number of links. -/
+theorem randomlyRewireCrossLinks_spec (A : Adj) (nodes1 nodes2 : List Nat) (N swaps : Nat)
+    (draws : List (Nat × Nat)) (A' : Adj) (st' : CrossSt)
+    (nd1 : NodupIdx nodes1) (nd2 : NodupIdx nodes2) (dis : ∀ x, x ∈ nodes1 → x ∉ nodes2)
+    (b1 : ∀ x ∈ nodes1, x < N) (b2 : ∀ x ∈ nodes2, x < N)
+    (sym : ∀ a b, A a b = A b a) (lf : ∀ a, A a a = false)
+    (h : randomlyRewireCrossLinks A nodes1 nodes2 swaps draws = some (A', st')) :
+    (∀ a b, A' a b = A' b a) ∧ (∀ a, A' a a = false) ∧
+    (∀ a b, ¬ (a ∈ nodes1 ∧ b ∈ nodes2) → ¬ (a ∈ nodes2 ∧ b ∈ nodes1) → A' a b = A a b) ∧
+    (∀ v, deg A' N v = deg A N v) ∧
+    crossBlock A' nodes1 nodes2 = st'.C ∧
+    (∀ i, deg st'.C nodes2.length i = deg (crossBlock A nodes1 nodes2) nodes2.length i) ∧
+    (∀ j, colDeg st'.C nodes1.length j = colDeg (crossBlock A nodes1 nodes2) nodes1.length j) ∧
+    total st'.C nodes1.length nodes2.length
+      = total (crossBlock A nodes1 nodes2) nodes1.length nodes2.length := by
+  unfold randomlyRewireCrossLinks at h
+  simp only [Option.map_eq_some_iff, Prod.mk.injEq] at h
+  obtain ⟨st, hrun, rfl, rfl⟩ := h
+  have inv0 := crossInv_onesList nodes1.length nodes2.length (crossBlock A nodes1 nodes2)
+    (crossBlock_supp A nodes1 nodes2)
+  obtain ⟨n1, n2, n3, n4, n5, n6⟩ := crossRewire_network A nodes1 nodes2 swaps draws _ st nd1 nd2
+    dis sym lf hrun inv0
+  obtain ⟨j1, -, -, -, j5⟩ := crossRun_invariants _ _ swaps draws _ st hrun inv0
+  refine ⟨n1, n2, n3, ?_, ?_, n5, n6, j5⟩
+  · intro v
+    exact crossRewire_degrees A nodes1 nodes2 N swaps draws _ st nd1 nd2 dis b1 b2 sym
+      (fun i j x y hx hy => crossBlock_eq A nodes1 nodes2 i j x y hx hy) hrun inv0 v
+  · funext i j
+    cases hx : nodes1[i]? with
+    | none =>
+      cases hc : st.C i j with
+      | false => simp [crossBlock, hx]
+      | true =>
+        obtain ⟨p, hp, e⟩ := j1.complete i j hc
+        have := (j1.inb p hp).1; rw [e] at this
+        have := (List.getElem?_eq_none_iff.1 hx); simp only at *; omega
+    | some x =>
+      cases hy : nodes2[j]? with
+      | none =>
+        cases hc : st.C i j with
+        | false => simp [crossBlock, hx, hy]
+        | true =>
+          obtain ⟨p, hp, e⟩ := j1.complete i j hc
+          have := (j1.inb p hp).2; rw [e] at this
+          have := (List.getElem?_eq_none_iff.1 hy); simp only at *; omega
+      | some y =>
+        simp only [crossBlock, hx, hy]
+        exact n4 i j x y hx hy
+
+/-- the number of cross links handed to the kernel is `cross_A.sum()`, the number of rows of
+`cross_links` (so every `randint(number_cross_links)` is a valid row). -/
+theorem randomlyRewireCrossLinks_count (A : Adj) (nodes1 nodes2 : List Nat) :
+    total (crossBlock A nodes1 nodes2) nodes1.length nodes2.length
+      = ((onesList nodes1.length nodes2.length (crossBlock A nodes1 nodes2)).length : Int) :=
+  onesList_length _ _ _
+
+/-- **`RandomlySetCrossLinks(_sparse)`, whole method**: simple, untouched outside the cross
+blocks, cross block = the new cross matrix, which holds exactly `number_cross_links` ones once
+the loops have finished (`done = k`). -/
+theorem randomlySetCrossLinks_spec (A : Adj) (nodes1 nodes2 : List Nat) (k : Int)
+    (draws : List (Nat × Nat))
+    (nd1 : NodupIdx nodes1) (nd2 : NodupIdx nodes2) (dis : ∀ x, x ∈ nodes1 → x ∉ nodes2)
+    (sym : ∀ a b, A a b = A b a) (lf : ∀ a, A a a = false)
+    (hd : ∀ d ∈ draws, d.1 < nodes1.length ∧ d.2 < nodes2.length) :
+    let R := randomlySetCrossLinks A nodes1 nodes2 k draws
+    (∀ a b, R.1 a b = R.1 b a) ∧ (∀ a, R.1 a a = false) ∧
+    (∀ a b, ¬ (a ∈ nodes1 ∧ b ∈ nodes2) → ¬ (a ∈ nodes2 ∧ b ∈ nodes1) → R.1 a b = A a b) ∧
+    (∀ i j x y, nodes1[i]? = some x → nodes2[j]? = some y →
+      R.1 x y = R.2.1 i j ∧ R.1 y x = R.2.1 i j) ∧
+    (R.2.2 = k.toNat → total R.2.1 nodes1.length nodes2.length = k.toNat) ∧
+    total R.2.1 nodes1.length nodes2.length ≤ k.toNat :=
+  by
+  obtain ⟨c1, c2, c3, c4, c5⟩ := crossSet_network A nodes1 nodes2 k.toNat draws nd1 nd2 dis sym lf hd
+  refine ⟨c1, c2, c3, c4, c5, ?_⟩
+  obtain ⟨e1, e2, -⟩ := crossSet_count nodes1.length nodes2.length k.toNat draws (fun _ _ => false) hd
+  have hz : total (fun _ _ => false) nodes1.length nodes2.length = 0 := by
+    unfold total deg; simp only [b2i_false, rsum_zero]
+  simp only [randomlySetCrossLinks]
+  rw [e1, hz]; omega
+
+/-- **the requested number never exceeds the number of cells**: for any density / number /
+null-model choice, the count the method hands to the kernel is at most `N1·N2` when the current
+number of cross links is (it always is) — so the `while True` of the kernel can always find a
+free cell (`crossSet_progress`). -/
+theorem setCount_le (dens : Option Rat) (number : Option Int) (N1 N2 : Nat) (current : Int)
+    (hc : current ≤ (N1 : Int) * (N2 : Int)) :
+    setCount dens number N1 N2 current ≤ (N1 : Int) * (N2 : Int) ∧
+    setCountSparse dens number N1 N2 current ≤ (N1 : Int) * (N2 : Int) := by
+  constructor <;>
+  · simp only [setCount, setCountSparse, setCountWith, setTooMany, sparseTooMany]
+    split <;> simp_all <;> omega
+
+/-- as long as fewer than `m·n` cells are set there is an in-range draw the loop accepts -/
+theorem crossSet_progress (m n : Nat) (C : Adj) (h : total C m n < (m : Int) * (n : Int)) :
+    ∃ i j, i < m ∧ j < n ∧ C i j = false := by
+  apply Classical.byContradiction
+  intro hno
+  have hall : ∀ i j, i < m → j < n → C i j = true := by
+    intro i j hi hj
+    cases hc : C i j with
+    | true => rfl
+    | false => exact absurd ⟨i, j, hi, hj, hc⟩ hno
+  have hconst : ∀ (c : Int) (k : Nat), rsum (fun _ => c) k = (k : Int) * c := by
+    intro c k
+    induction k with
+    | zero => simp [rsum]
+    | succ k ih => simp only [rsum, ih]; rw [Int.natCast_succ, Int.add_mul]; omega
+  have : total C m n = (m : Int) * (n : Int) := by
+    unfold total
+    rw [rsum_congr m (g := fun _ => (n : Int)) (fun i hi => by
+      unfold deg
+      rw [rsum_congr n (g := fun _ => (1 : Int)) (fun j hj => by rw [hall i j hi hj]; rfl)]
+      rw [hconst]; omega)]
+    exact hconst _ _
+  omega
+
+/-- **`Network.randomly_rewire`, pyunicorn's part** (`set_edge_list(graph.get_edgelist(),
+n_nodes=N)` after igraph's `rewire`): if the rewired edge list is that of a simple graph on the
+same `n` nodes in which every node has as many incident links as before (igraph's contract —
+trusted), then the rebuilt network has `n` nodes, is simple and undirected, has exactly the
+listed links, and every node has its old degree. -/
+theorem randomly_rewire_rebuild (n : Nat) (A : Adj) (es' : List (Nat × Nat))
+    (sym : ∀ i j, A i j = A j i) (lf : ∀ i, A i i = false)
+    (supp : ∀ i j, A i j = true → i < n ∧ j < n)
+    (hs : SimpleEdges n es') (hdeg : ∀ v, inc es' v = inc (edgeList n A) v) :
+    ∃ F, fromEdges n es' = some F ∧ (∀ a b, F a b = F b a) ∧ (∀ a, F a a = false) ∧
+      (∀ a b, F a b = true ↔ ∃ e ∈ es', sameLink e (a, b)) ∧
+      (∀ a b, F a b = true → a < n ∧ b < n) ∧
+      (∀ v, deg F n v = deg A n v) := by
+  refine ⟨linkAny es', fromEdges_some n es' (fun e he => ⟨(hs.1 e he).1, (hs.1 e he).2.1⟩),
+    ?_, ?_, linkAny_iff es', ?_, ?_⟩
+  · intro a b
+    simp only [linkAny]
+    congr 1; funext e; grind
+  · intro a
+    cases hc : linkAny es' a a with
+    | false => rfl
+    | true =>
+      obtain ⟨e, he, hse⟩ := (linkAny_iff es' a a).1 hc
+      have := (hs.1 e he).2.2
+      simp only [sameLink] at hse; omega
+  · intro a b hab
+    obtain ⟨e, he, hse⟩ := (linkAny_iff es' a b).1 hab
+    have := hs.1 e he
+    simp only [sameLink] at hse; omega
+  · intro v
+    have inv0 := geoInv_edgeList n A sym lf supp
+    rw [deg_linkAny n es' hs v, hdeg v, ← deg_linkAny n _ (simpleEdges_of_geoInv n A _ inv0) v,
+      linkAny_of_geoInv n A _ inv0]
+
+/-- without `n_nodes` the edge list alone cannot say how many nodes there are; with it, an
+index `≥ N` is rejected (`coo_matrix` raises) rather than silently enlarging the network. -/
+theorem fromEdges_checks_range (N : Nat) (es : List (Nat × Nat)) (F : Adj)
+    (h : fromEdges N es = some F) : ∀ e ∈ es, e.1 < N ∧ e.2 < N :=
+  (fromEdges_eq N es F h).2
+
+/-- **`set_random_links_by_distance`**: the new adjacency is symmetric and loop-free whenever
+the link-probability matrix `p = exp(a + b·D)` is symmetric (`D = grid.distance()` is) — for
+*every* random matrix `P`, because `P + Pᵀ` is symmetric as soon as the addition is commutative
+(true of IEEE floats as of rationals).  The number of nodes is the size of `D`. -/
+theorem distKernel_simple {α : Type} (ge : α → α → Bool) (half : α → α) (add : α → α → α)
+    (p P : Nat → Nat → α) (comm : ∀ x y, add x y = add y x) (psym : ∀ i j, p i j = p j i) :
+    (∀ i j, distKernelG ge half add p P i j = distKernelG ge half add p P j i) ∧
+    (∀ i, distKernelG ge half add p P i i = false) := by
+  constructor
+  · intro i j
+    simp only [distKernelG]
+    by_cases h : i = j
+    · subst h; rfl
+    · have h' : ¬ j = i := fun e => h e.symm
+      rw [if_neg h, if_neg h', psym i j, comm (P i j) (P j i)]
+  · intro i; simp [distKernelG]
+
+/-- the instance the driver evaluates -/
+theorem distKernel_rat_simple (p P : Nat → Nat → Rat) (psym : ∀ i j, p i j = p j i) :
+    (∀ i j, distKernel p P i j = distKernel p P j i) ∧ (∀ i, distKernel p P i i = false) :=
+  distKernel_simple _ _ _ p P (fun x y => Rat.add_comm x y) psym
+
 /-! ## non-vacuity: concrete states satisfying the hypotheses, with a rewiring that happens -/
 
 /-- two disjoint links `0—1`, `2—3` -/
@@ -526,6 +860,11 @@ example : (geoStep (exCfg .II) ⟨exA, [(0, 1), (2, 3)], 0⟩ (1, 1)).map (fun s
 example : (geoRun (exCfg .II) 2 [(0, 0), (0, 1), (1, 1), (1, 0)] ⟨exA, [(0, 1), (2, 3)], 0⟩).map
     (fun s => (s.edges, s.i)) = some ([(0, 1), (2, 3)], 2) := by decide
 
+/-- a run in model I that rewires twice; the theorem's matching exists with tolerance `2·eps` -/
+example : (geoRun (exCfg .I) 2 [(0, 1), (0, 1), (1, 1)] ⟨exA, [(0, 1), (2, 3)], 0⟩).map
+    (fun s => (s.edges, s.i)) = some ([(0, 1), (2, 3)], 2) := by decide
+example : BijOn 2 (tr 0 1) (tr 0 1) := bijOn_tr 2 0 1 (by omega) (by omega)
+
 /-- cross links: two draws hit the same cell, the loop counter still reaches 2 -/
 example : (crossSetRun 2 [(0, 0), (0, 0), (1, 1), (1, 0)] (fun _ _ => false) 0).2 = 2 := by decide
 
@@ -554,6 +893,43 @@ example : NodupIdx [0, 3, 5] := by
 /-- Barabasi-Albert, `N = 5`, `m = 2`: one rejected draw (repeated target), run completes -/
 example : (baRun 5 2 [0, 0, 3, 1, 5] (baInit 5 2)).map (fun s => (s.j, s.it)) = some (5, 0) := by
   decide
+
+/-! non-vacuity for the method-level theorems -/
+
+example : edgeList 4 exA = [(0, 1), (2, 3)] := by decide
+/-- the whole method, model III with the true degrees: the draw `(0,1)` rewires -/
+example : (geoMethod .III (fun i j => if i = j then 0 else 4) 1 4 exA 1 [(1, 1), (0, 1)]).map
+    (fun s => (s.edges, s.i)) = some ([(0, 3), (2, 1)], 1) := by decide
+example : total exA 4 4 = 2 * ((2 : Nat) : Int) := by decide
+
+/-- cross links `0—1`, `2—3` between the groups `[0, 2]` and `[1, 3]` -/
+example : onesList 2 2 (crossBlock exA [0, 2] [1, 3]) = [(0, 0), (1, 1)] := by decide
+example : (randomlyRewireCrossLinks exA [0, 2] [1, 3] 1 [(0, 0), (0, 1)]).map
+    (fun r => (toMat r.1 4 4, r.2.links)) =
+    some ([[false, false, false, true], [false, false, true, false],
+           [false, true, false, false], [true, false, false, false]], [(0, 1), (1, 0)]) := by
+  decide
+/-- density has priority, too large a number falls back to the current count -/
+example : setCount (some (1 / 2)) (some 5) 2 3 1 = 3 := by decide +kernel
+example : setCount none (some 7) 2 3 1 = 1 := by decide
+example : setCountSparse none none 2 3 1 = 1 := by decide
+example : (randomlySetCrossLinks exA [0, 2] [1, 3] 2 [(0, 1), (0, 1), (1, 0)]).2.2 = 2 := by decide
+
+example : baDrawsOK 5 2 [0, 0, 3, 1, 5] (baInit 5 2) = true := by decide
+example : (baInit 5 2).targets = [0, 0, 1, 2, 0, 0, 0, 0, 0, 0, 0, 0] := by decide
+
+example : SimpleEdges 4 [(0, 3), (2, 1)] := by
+  refine ⟨by decide, ?_⟩
+  simp [sameLink]
+example : ∀ v, v < 4 → inc [(0, 3), (2, 1)] v = inc (edgeList 4 exA) v := by decide
+example : (fromEdges 3 [(0, 3)]).isNone = true := by decide
+example : (fromEdges 4 [(0, 3), (3, 0), (2, 1)]).map (fun F => toMat F 4 4) =
+    some [[false, false, false, true], [false, false, true, false],
+          [false, true, false, false], [true, false, false, false]] := by decide
+
+/-- `p ≥ ½(P + Pᵀ)` with `P` not symmetric: the result is symmetric -/
+example : toMat (distKernel (fun _ _ => 1 / 2) (fun i j => if i < j then 1 / 4 else 1 / 2)) 2 2
+    = [[false, true], [true, false]] := by decide +kernel
 
 
 end Pyunicorn.Random
